@@ -423,8 +423,13 @@ class Dimension:
         # the pickle was taken (a name, a symbol, an alias)
         if getattr(self, "_initialized", False):
             return
-        for slot, value in state[1].items():
+        # "initialized" is the last thing it becomes: another thread may obtain the
+        # same object from the constructor while its slots are still being filled in
+        slots = dict(state[1])
+        initialized = slots.pop("_initialized", True)
+        for slot, value in slots.items():
             setattr(self, slot, value)
+        self._initialized = initialized
 
     # JSON support
 
@@ -743,8 +748,13 @@ class Prefix:
         # the pickle was taken (a name, a symbol, an alias)
         if getattr(self, "_initialized", False):
             return
-        for slot, value in state[1].items():
+        # "initialized" is the last thing it becomes: another thread may obtain the
+        # same object from the constructor while its slots are still being filled in
+        slots = dict(state[1])
+        initialized = slots.pop("_initialized", True)
+        for slot, value in slots.items():
             setattr(self, slot, value)
+        self._initialized = initialized
 
     # JSON support
 
@@ -1107,8 +1117,13 @@ class Unit:
         # the pickle was taken (a name, a symbol, an alias)
         if getattr(self, "_initialized", False):
             return
-        for slot, value in state[1].items():
+        # "initialized" is the last thing it becomes: another thread may obtain the
+        # same object from the constructor while its slots are still being filled in
+        slots = dict(state[1])
+        initialized = slots.pop("_initialized", True)
+        for slot, value in slots.items():
             setattr(self, slot, value)
+        self._initialized = initialized
 
     # JSON support
 
